@@ -70,13 +70,13 @@ func c05Session(r *rand.Rand, P string, n int) ([]wire.Req, []string) {
 		case 3:
 			add("WRITE stray", wire.Write(tree.Content(r.Int63(), int64(c05Payloads[r.Intn(4)]))))
 		case 4:
-			t := []string{"/old.bin", "/new1.bin", "/full", "/missing", "/gone", "/full/x"}[r.Intn(6)]
+			t := []string{"/old.bin", "/new1.bin", "/full", "/missing", "/gone", "/full/x", "/ldir", "/lfile"}[r.Intn(8)]
 			add("DELETE "+t, wire.P(wire.OpDelete, P+t))
 		case 5:
 			t := []string{"/nd", "/full", "/old.bin", "/no/parent", "/nd/inner", "/gone/sub"}[r.Intn(6)]
 			add("MKDIR "+t, wire.P(wire.OpMkdir, P+t))
 		case 6:
-			t := []string{"/gone", "/full", "/old.bin", "/missing", "/nd"}[r.Intn(5)]
+			t := []string{"/gone", "/full", "/old.bin", "/missing", "/nd", "/ldir", "/lfile"}[r.Intn(7)]
 			add("RMDIR "+t, wire.P(wire.OpRmdir, P+t))
 		case 7:
 			add("STAT", wire.P(wire.OpStat, P+[]string{"/old.bin", "/new1.bin", "/full", "/nd"}[r.Intn(4)]))
